@@ -422,7 +422,14 @@ def correspond(ctx, drivers):
                 if not (kind == 'err' and 'err' in r):
                     ctx.disagree(c, val if kind == 'err' else 'ok', r.get('err', r.get('error', 'ok')), f'parseTree preserve_ids={preserve}: error behaviour')
                 continue
-            df = G.diff(canon_model(val), canon_model(r['ok']))
+            a, b = canon_model(val), canon_model(r['ok'])
+            if not preserve:
+                # node ids (the `nodeid` keyvalue) are re-allocated by the node_id manager when they collide;
+                # the model treats nodeid as an ordinary keyvalue (NOT_MODELLED), so its value is not compared here
+                for dd in (a, b):
+                    for e in [dd['spawn']] + dd['ents']:
+                        e['keys'] = [kv if ''.join(map(chr, kv[0])).casefold() != 'nodeid' else [kv[0], []] for kv in e['keys']]
+            df = G.diff(a, b)
             if df:
                 ctx.disagree(c, 'impl map', df, f'parseTree preserve_ids={preserve}: VMF.parse vs model (impl vs model)')
         if 'ok' in r_rt and 'map' in r_proj:
